@@ -39,7 +39,7 @@ ASSUMPTIONS = ["generator constrained to the quantifier: no chained or nested li
 # "A"/"a": names that differ in case only are different names
 NAMES = ["a", "b", "c", "d", "e", "A", "B"]
 REPOS = [None, None, None, "file:///nowhere/term_a.xml", "file:///nowhere/term_b.xml"]
-TYPES = ["t1", "t2"]
+TYPES = ["t1", "t2", "T3", "hardware/Electrode"]      # types are free text: case and "/" included
 
 
 # ---------------------------------------------------------------------------- generation
